@@ -293,11 +293,14 @@ func (o *offsetDB) save(jobs map[pipeline.SourceID]*Job, mu *sync.RWMutex) {
 	_, err = file.Write(o.buf)
 	if err != nil {
 		logger.Errorf("can't write offsets file %s, %s", o.tmpOffsetsFile, err.Error())
+		// keep the previous offsets file: the new snapshot is incomplete
+		return
 	}
 
 	err = file.Sync()
 	if err != nil {
 		logger.Errorf("can't sync offsets file %s, %s", o.tmpOffsetsFile, err.Error())
+		return
 	}
 
 	err = os.Rename(string(tmpWithRandom), o.curOffsetsFile)
